@@ -37,6 +37,16 @@ PARTIAL_CALLS = {
     'json.loads': ('ValueError',),
     'decimal.Decimal': ('ArithmeticError',),
     'fractions.Fraction': ('ValueError', 'ZeroDivisionError'),
+    # arithmetic on numeric literal values: int/float mixing overflows for
+    # integers beyond the float range; division by a literal zero
+    'operator.add': ('OverflowError',), 'operator.sub': ('OverflowError',),
+    'operator.mul': ('OverflowError',),
+    'operator.pow': ('OverflowError', 'ZeroDivisionError'),
+    'operator.truediv': ('OverflowError', 'ZeroDivisionError'),
+    'operator.floordiv': ('ZeroDivisionError',),
+    'operator.mod': ('ZeroDivisionError',),
+    'math.pow': ('OverflowError', 'ValueError'),
+    'math.exp': ('OverflowError',),
 }
 PARTIAL_METHODS = {
     'index': ('ValueError',),
@@ -388,6 +398,35 @@ class Analyzer:
                 elif isinstance(x, (ast.Name, ast.Attribute)):
                     leaves.append(repo.resolve(fi.module, x,
                                                model.scope_locals(fi)))
+            # ... or looked up in a module-level table of callables
+            if v is not None and not leaves:
+                tab = None
+                if isinstance(v, ast.Call) and isinstance(
+                        v.func, ast.Attribute) and v.func.attr == 'get':
+                    tab = v.func.value
+                elif isinstance(v, ast.Subscript):
+                    tab = v.value
+                todo = [tab] if tab is not None else []
+                seen_t = 0
+                while todo and seen_t < 12:
+                    seen_t += 1
+                    x = todo.pop()
+                    if isinstance(x, ast.IfExp):
+                        todo += [x.body, x.orelse]
+                    elif isinstance(x, ast.Name):
+                        v2 = norm.single_assignments(fi.node).get(x.id)
+                        if v2 is not None:
+                            todo.append(v2)
+                            continue
+                        dd = repo.resolve(fi.module, x,
+                                          model.scope_locals(fi))
+                        tg = repo.lookup(dd) if dd else None
+                        if isinstance(tg, tuple) and tg[0] == 'const':
+                            todo.append(('modconst', tg[1], tg[2]))
+                    elif isinstance(x, tuple) and x[0] == 'modconst' and \
+                            isinstance(x[2], ast.Dict):
+                        for val in x[2].values:
+                            leaves.append(repo.resolve(x[1], val))
             hits = [x for x in leaves if x in PARTIAL_CALLS]
             if hits:
                 classes = tuple(sorted({c for h in hits
@@ -783,6 +822,63 @@ def check_hooks(repo, rep, an):
                'subclass' % (q, raised), loc=mod.loc(fi.node))
 
 
+def check_no_recursion(repo, rep, an):
+    """R03i: nothing on the parse path recurses over the input.  ply's
+    token loop and LR driver are iterative; a recursive walk of the
+    expression tree (or of the text) inside YaqlEngine.__call__ fails with
+    RecursionError -- not a YAQL parsing error -- on deeply nested input."""
+    graph = {}
+    fis = {k: v[0] for k, v in an.scope.items()}
+    for k, fi in fis.items():
+        outs = set()
+        for call in model.calls_in(fi.node):
+            d = repo.resolve(fi.module, call.func, model.scope_locals(fi))
+            tgt = repo.lookup(d) if d else None
+            if isinstance(tgt, model.FuncInfo) and tgt.key in fis:
+                outs.add(tgt.key)
+            elif isinstance(tgt, model.ClassInfo):
+                for c in repo.mro(tgt):
+                    if isinstance(c, model.ClassInfo) and \
+                            '__init__' in c.methods and \
+                            c.methods['__init__'].key in fis:
+                        outs.add(c.methods['__init__'].key)
+                        break
+            elif isinstance(call.func, ast.Name):
+                # nested helper / the function itself by bare name
+                g = fi
+                while g is not None:
+                    t = fi.module.functions.get(
+                        (g.qualname + '.' if g else '') + call.func.id)
+                    if t is not None and t.key in fis:
+                        outs.add(t.key)
+                        break
+                    g = g.parent_func
+        graph[k] = outs
+    # functions on a cycle
+    on_cycle = set()
+    for start in graph:
+        seen = set()
+        stack = list(graph[start])
+        while stack:
+            n = stack.pop()
+            if n == start:
+                on_cycle.add(start)
+                break
+            if n in seen:
+                continue
+            seen.add(n)
+            stack.extend(graph.get(n, ()))
+    for k in sorted(fis):
+        rep.ob('R03i', k + '/no-recursion', k not in on_cycle,
+               '%s is recursive (calls itself, directly or through %s) and '
+               'runs inside YaqlEngine.__call__: its depth follows the '
+               'nesting of the expression, so a deeply nested (valid or '
+               'invalid) text raises RecursionError instead of parsing or '
+               'raising a YAQL parsing exception' % (
+                   fis[k].qualname, sorted(graph[k] & on_cycle) or 'itself'),
+               loc=fis[k].module.loc(fis[k].node), nontrivial=False)
+
+
 def run(repo, rep):
     rep.rule('R03a', 'PARTIAL-CALLS-GUARDED: every partial operation on the '
              'parse path (int/float/codecs.decode/chr/index/lookup/division/'
@@ -798,6 +894,8 @@ def run(repo, rep):
              'is the caller\'s expression parameter, not rewritten')
     rep.rule('R03h', 'TOKEN-REGEXES-TERMINATE: no token or escape regex is '
              'exponentially ambiguous (EDA test on its automaton)')
+    rep.rule('R03i', 'NO-RECURSION-ON-THE-PARSE-PATH: no function that runs '
+             'inside YaqlEngine.__call__ is on a call cycle')
     rep.rule('R03e', 'POSITION-PROVENANCE: reported positions are None or '
              'the unmodified token position')
     rep.trusted += ['ply: token loop advances lexpos, refuses empty-matching '
@@ -845,6 +943,7 @@ def run(repo, rep):
     rep.floor('partial-operation sites catalogued', nparts, 2)
     rep.floor('entry points (token/grammar/engine)', len(entries), 26)
     check_hooks(repo, rep, an)
+    check_no_recursion(repo, rep, an)
     check_positions(repo, rep, an)
     check_input_is_the_text(repo, rep)
     check_token_regexes_terminate(repo, rep)
